@@ -20,6 +20,7 @@ import (
 	"math"
 	"os"
 	"path/filepath"
+	"runtime"
 	"sort"
 	"strings"
 	"sync"
@@ -40,6 +41,7 @@ type vSelfEnd struct {
 	period   time.Duration
 	sent     int32
 	ended    int32
+	offering int32 // 1 while the producer waits to hand over a block
 }
 
 func vNewSelfEnd(nchan int, mode, endAfter int) *vSelfEnd {
@@ -54,9 +56,28 @@ func vNewSelfEnd(nchan int, mode, endAfter int) *vSelfEnd {
 
 func (s *vSelfEnd) Sample() error { return nil }
 
+func (s *vSelfEnd) makeBlock(n int) *dataBlock {
+	block := new(dataBlock)
+	block.segments = make([]DataSegment, s.nchan)
+	np := 200
+	for ch := range block.segments {
+		d := make([]RawType, np)
+		for i := range d {
+			d[i] = RawType(1000 + (i*7+n)%50)
+		}
+		block.segments[ch] = DataSegment{rawData: d, framesPerSample: 1, framePeriod: s.samplePeriod,
+			firstFrameIndex: FrameIndex(n * np), firstTime: time.Now()}
+	}
+	block.nSamp = np
+	return block
+}
+
 func (s *vSelfEnd) StartRun() error {
 	go func() {
 		n := 0
+		var prepared chan *dataBlock
+		stopPrep := make(chan struct{})
+		defer close(stopPrep)
 		finish := func() {
 			atomic.StoreInt32(&s.ended, 1)
 			if s.mode == 0 {
@@ -98,21 +119,29 @@ func (s *vSelfEnd) StartRun() error {
 				finish()
 				return
 			}
-			block := new(dataBlock)
-			block.segments = make([]DataSegment, s.nchan)
-			np := 200
-			for ch := range block.segments {
-				d := make([]RawType, np)
-				for i := range d {
-					d[i] = RawType(1000 + (i*7+n)%50)
+			var block *dataBlock
+			if s.period == 0 {
+				// blocks prepared ahead by a second goroutine: this one is back at the hand-over at once
+				if prepared == nil {
+					prepared = make(chan *dataBlock, 64)
+					go func() {
+						for k := 0; ; k++ {
+							select {
+							case prepared <- s.makeBlock(k):
+							case <-stopPrep:
+								return
+							}
+						}
+					}()
 				}
-				block.segments[ch] = DataSegment{rawData: d, framesPerSample: 1, framePeriod: s.samplePeriod,
-					firstFrameIndex: s.nextFrameNum, firstTime: time.Now()}
+				block = <-prepared
+			} else {
+				block = s.makeBlock(n)
 			}
-			block.nSamp = np
-			s.nextFrameNum += FrameIndex(np)
+			atomic.StoreInt32(&s.offering, 1)
 			select {
 			case s.nextBlock <- block:
+				atomic.StoreInt32(&s.offering, 0)
 				n++
 				atomic.AddInt32(&s.sent, 1)
 			case <-s.abortSelf:
@@ -140,6 +169,7 @@ type vCtlMon struct {
 	release       chan struct{}
 	heldCount     int64
 	queuedBefore  int64
+	offering      *int32       // backlog sessions: 1 while the source is waiting to hand over a block
 	plantIn       atomic.Value // string: base path in which the next START's state file is to be made uncreatable
 	planted       int64
 }
@@ -181,6 +211,15 @@ func (m *vCtlMon) handlers() *verifHandlers {
 				}
 			case "core.process.end":
 				atomic.AddInt64(&m.processEnds, 1)
+			case "core.idle":
+				// backlog sessions: the core loop reaches its next block boundary only when the source already offers a block
+				if f := m.offering; f != nil {
+					for i := 0; i < 1000 && atomic.LoadInt32(f) == 0; i++ {
+						time.Sleep(20 * time.Microsecond)
+					}
+					time.Sleep(20 * time.Microsecond) // from "about to offer" to parked in the send
+					runtime.Gosched()
+				}
 			case "rpc.queue.before":
 				atomic.AddInt64(&m.queuedBefore, 1)
 			}
@@ -284,7 +323,7 @@ func (k *vCtl) do(what string, want string, f func() error) (err error, returned
 					return
 				case <-time.After(50 * time.Millisecond):
 				}
-				if n := atomic.LoadInt64(&k.mon.processEnds) - p0; n > 50000 && time.Since(t0) > 3*time.Second {
+				if n := atomic.LoadInt64(&k.mon.processEnds) - p0; n > 5000 && time.Since(t0) > 2*time.Second {
 					c.Violate("c11:request-starved", "request %s has not been answered while the source processed %d further blocks (a block was on offer at every block boundary)\nhistory: %v", what, n, k.hist)
 					close(k.self.endNow) // end the flood so that the process can go on
 					return
@@ -430,6 +469,7 @@ func (k *vCtl) startSource() bool {
 			// a source that always has the next block on offer (processing has fallen behind the producer): requests must still get their turn
 			k.self.period = 0
 			k.flood = true
+			k.mon.offering = &k.self.offering
 			k.c.Cov("sessions_with_block_backlog", 1)
 		}
 		sc.ActiveSource = k.self
